@@ -27,6 +27,9 @@ def lit(R, w):
     return R.choice([0, 1, m, m >> 1, 1 << (w - 1), R.getrandbits(w), R.getrandbits(w) & R.getrandbits(w)]) & m
 
 
+_CTXS = []
+
+
 class Ctx:
     """Accumulates the declarations of one component while expressions are generated."""
 
@@ -43,6 +46,8 @@ class Ctx:
         self.depth_budget = 2
         self.sigstack = []
         self.sig = ""
+        self.tmpsigs = {}       # temporary name -> shape of the expression assigned to it
+        _CTXS.append(self)
 
     def fresh(self, p):
         self.n += 1
@@ -155,6 +160,7 @@ def _sized0(ctx, w, depth, allow_loop=True, nonconst=False, force=None):
     if sh == "tmp":
         t = ctx.fresh("t")
         e = _sized(ctx, w, max(0, depth - 1), nonconst=True)
+        ctx.tmpsigs[t] = ctx.sig
         ctx.pre.append("%s = %s" % (t, e))
         return t
     if sh == "bit":
@@ -517,7 +523,7 @@ def fam_loopidx(R, idx):
         name = "loopidx_arr_n%d_w%d" % (n, w)
     elif kind == 3:
         n = R.choice([3, 4, 5])
-        w = R.choice([8, 16, 32])
+        w = R.choice([8, 16, 32] if n < 5 else [16, 32])        # s.x[i+j] must stay in range
         decl = ["s.x = InPort( Bits%d )" % w, "s.y = OutPort( Bits%d )" % w]
         body = "s.y @= 0\nfor i in range(%d):\n  for j in range(%d):\n    if s.x[i+j]:\n      s.y @= s.y + ( i * %d + j )" % (n, n, n)
         name = "loopidx_nested_n%d_w%d" % (n, w)
@@ -552,8 +558,11 @@ def fam_struct(R, idx):
     elif kind == 5:
         # whole-struct traffic only: connection, assignment, register, mux
         decl += ["s.o = OutPort( Mix )", "s.o6 = OutPort( Mix )", "s.m2 = InPort( Mix )", "s.r = OutPort( Mix )",
-                 "s.o7 = [ OutPort( Pt ) for _ in range(2) ]", "s.o //= s.m"]
-        body = ["if s.sel:\n  s.o6 @= s.m\nelse:\n  s.o6 @= s.m2", "s.o7[0] @= s.p\ns.o7[1] @= s.m.pts[1]"]
+                 "s.o7 = [ OutPort( Pt ) for _ in range(2) ]", "s.o //= s.m",
+                 "s.ob = OutPort( mk_bits( %d ) )" % (8 * w + 7), "s.otl = OutPort( mk_bits( %d ) )" % (w + 4)]
+        # (s.ob / s.otl: the packed value of a struct with nested structs and arrays, seen as plain bits)
+        body = ["if s.sel:\n  s.o6 @= s.m\nelse:\n  s.o6 @= s.m2", "s.o7[0] @= s.p\ns.o7[1] @= s.m.pts[1]",
+                "s.ob @= s.m2", "s.otl @= s.m.tl"]
         return ("struct_k%d_w%d" % (kind, w),
                 _emit(ctx, [_block("up", body),
                             _block("upff", ["s.r <<= s.m2"], ff=True)], decl))
@@ -651,7 +660,8 @@ def fam_seq(R, idx):
         decl += ["s.a = Wire( Bits%d )" % w, "s.b = Wire( Bits%d )" % w]
         blocks = [_block("ff_a", ["s.a <<= s.b + s.d"], ff=True), _block("ff_b", ["s.b <<= s.a"], ff=True),
                   _block("up_q", ["s.q @= s.a ^ s.b"])]
-    return "seq_k%d_w%d_n%d" % (kind, w, n), _emit(ctx, blocks, decl), sigs
+    ctx.decl[0:0] = decl        # s.d / s.en are used by what the expression generator declares
+    return "seq_k%d_w%d_n%d" % (kind, w, n), _emit(ctx, blocks, []), sigs
 
 
 def fam_misc(R, idx):
@@ -697,7 +707,11 @@ FAMILIES = {"unit": fam_unit, "ops": fam_ops, "expr": fam_expr, "ctrl": fam_ctrl
 def design(family, index, seed_tag=""):
     """-> (name, source, {"family", "shape", "sigs": {top-level output name: shape of its expression}})"""
     R = rng("svgen/%s/%s/%d" % (seed_tag, family, index))
+    del _CTXS[:]
     r = FAMILIES[family](R, index)
     name, src = r[0], r[1]
-    sigs = r[2] if len(r) > 2 else {}
+    sigs = dict(r[2]) if len(r) > 2 else {}
+    if sigs:
+        for c in _CTXS:
+            sigs.update(c.tmpsigs)
     return "gen:%s:%d:%s" % (family, index, name), src, {"family": family, "shape": name, "sigs": sigs}
